@@ -147,6 +147,9 @@ structure CandAfts where
   Ipv4Entry : List CandTop
   Ipv6Entry : List CandTop
   LabelEntry : List CandTop
+  /-- tables gribigo does not support; `checkCandidate` refuses a candidate that has entries in them -/
+  MacEntry : List Unit := []
+  PolicyForwardingEntry : List Unit := []
   deriving DecidableEq, Repr, Inhabited
 
 structure CandRIB where
